@@ -1236,3 +1236,11 @@ UNIT_META["log_queues"] = {"functions": ["log::Log::replay_next"],
 for _p in ("C13", "C03"):
     PROPS[_p]["verus_units"] = list(PROPS[_p].get("verus_units", [])) + ["log_queues"]
     PROPS[_p]["claim"] = PROPS[_p]["claim"] + " Log::replay_next (Verus) hands the file just replayed to the cleanup queue under its own id (it is emptied only by the reclaim step, after the tables were flushed) and takes the next file to replay from the front of the replay queue, leaving the order of the rest as Log::open established it."
+
+# ---------------------------------------------------------------- U86 (Verus: the two small slot readers the chain / free-list units take by contract)
+UNIT_META["slot_reads"] = {"functions": ["table::ValueTable::read_next_part", "table::ValueTable::read_next_free"],
+                           "assumes": ["LogWriter::value (does the current view hold the slot; if so its bytes) and TableFile::read_at are contracts over the 10-byte cursor; the marker test and the link decoder are uninterpreted functions of the bytes (Kani U5)", "the slot's byte offset fits in u64"]}
+for _p in ("C06", "C14", "C01"):
+    PROPS[_p]["verus_units"] = list(PROPS[_p].get("verus_units", [])) + ["slot_reads"]
+PROPS["C06"]["claim"] = PROPS["C06"]["claim"] + " The readers those proofs take by contract are themselves proved (Verus): read_next_part / read_next_free decode the slot as the current view of the table holds it -- the record under assembly and the log overlay first, the table file only otherwise, at the slot's own offset -- and a free-list link at or beyond the fill mark is reported as corruption."
+PROPS["C01"]["claim"] = PROPS["C01"]["claim"] + " Table reads prefer the log view (Verus, unit slot_reads, for the two link readers): the file is consulted only for slots the record under assembly / log overlay does not hold."
